@@ -3,8 +3,8 @@
     python child.py <trace.json> <lines.json> <seconds> -- <mypy args…>
 
 Writes the counters read from outside (instrument.py) to <trace.json> when the process leaves through
-`util.hard_exit` / `sys.exit`.  A watchdog dumps the Python stack and exits after <seconds> (the parent treats
-that — or its own, later, kill — as a hang and reads the innermost mypy frame from the dump).  The address
+`util.hard_exit` / `sys.exit`.  After <seconds> of CPU time the Python stack is dumped and the process is killed (the parent
+treats that as a hang and reads the innermost mypy frame from the dump).  The address
 space is limited so that a runaway allocation is a MemoryError inside mypy, not an OOM kill of the sandbox.
 """
 import atexit
@@ -12,6 +12,7 @@ import faulthandler
 import json
 import os
 import resource
+import signal
 import sys
 
 
@@ -23,7 +24,15 @@ def main() -> None:
         resource.setrlimit(resource.RLIMIT_AS, (limit, limit))
     except (ValueError, OSError):
         pass
-    faulthandler.dump_traceback_later(seconds, exit=True, file=sys.stderr)
+    # the time limit is CPU time (the machine may be heavily loaded): at the soft limit the kernel sends SIGXCPU,
+    # on which faulthandler dumps the Python stack (a C-level handler: works inside a long C call); at the hard
+    # limit the process is killed.  A generous wall-clock watchdog catches a process that merely waits.
+    faulthandler.register(signal.SIGXCPU, file=sys.stderr, all_threads=False, chain=False)
+    try:
+        resource.setrlimit(resource.RLIMIT_CPU, (int(seconds), int(seconds) + 2))
+    except (ValueError, OSError):
+        pass
+    faulthandler.dump_traceback_later(seconds * 12, exit=True, file=sys.stderr)
     import instrument
     with open(lines_path) as f:
         lines = json.load(f)
